@@ -1,4 +1,4 @@
-import DoitModel.Proofs.C09Term3
+import DoitModel.Proofs.C09TermP
 /-! # C09 — every run terminates; dependency cycles are diagnosed, never hung on
 
 Property theorems only (model: `Model/Run.lean`, `Model/RunC09.lean`; invariants: `Proofs/Run*.lean`, `Proofs/C09*.lean`).
@@ -151,13 +151,6 @@ theorem C09_cyclic_ends_run_parallel (inp : RunInput) (s : Sys) (d : Name) (perm
 calc results — is an index below `N`.  Without it the statement is false in the model (a `RunInput` is a family of
 functions on `Nat`: `taskDep n = [n + 1]` creates nodes for ever). -/
 
-/-- every run of the model on a finite task table is finite: there is no infinite sequence of enabled choices.  Proved
-    for the serial runner (`C09_terminates_serial`); for the parallel runners see `C09_terminates_parallel` /
-    the account in its docstring. -/
-def C09_terminates_full : Prop :=
-  ∀ (inp : RunInput) (N : Nat), FiniteTable inp N →
-    ¬ ∃ (f : Nat → Sys) (c : Nat → Choice), f 0 = init inp ∧ ∀ i, stepOf inp (f i) (c i) = some (f (i + 1))
-
 /-- C09 (terminates), dispatcher + serial runner, FULL: on a finite task table — any graph (cyclic ones included), any
     selection, oracle, flags — there is no infinite run, whatever order the `set`s are iterated in.  Proof
     (`Proofs/C09Term1-3.lean`): every transition strictly decreases the lexicographic measure
@@ -175,6 +168,31 @@ theorem C09_serial_step_decreases (inp : RunInput) (N : Nat) (hF : FiniteTable i
   | main perm => exact serialStep_mlt hF (created_lt hF hr) (created_lt hF (Reach.next hr hs)) hs
   | take w => cases hs
   | done w => cases hs
+
+/-- C09 (terminates), parallel runners (`MRunner` / `MThreadRunner`), FULL: on a finite task table there is no infinite
+    run, for every worker interleaving at queue-operation granularity, every `numProcess`, graph, oracle and flags.
+    The measure of the serial system is extended (`Proofs/C09TermP.lean`) by `U2` — tasks without a final status, which
+    pays for the `free_proc + 1` calls of `get_next_job` after each processed result —, by the job / result queues and
+    the executing workers, and by the loop counters of `_run_start_processes` and of the feed loop.  A `JobHold` taken
+    by a worker shortens the job queue; the main thread blocked in `result_q.get()` is simply not enabled, so "no
+    infinite run" also says that the workers cannot spin for ever while it waits. -/
+theorem C09_terminates_parallel (inp : RunInput) (hpar : inp.runner ≠ .serial) (N : Nat) (hF : FiniteTable inp N) :
+    ¬ ∃ (f : Nat → Sys) (c : Nat → Choice), f 0 = init inp ∧ ∀ i, stepOf inp (f i) (c i) = some (f (i + 1)) :=
+  parallel_terminates hpar hF
+
+/-- the step form for the parallel system -/
+theorem C09_parallel_step_decreases (inp : RunInput) (N : Nat) (hF : FiniteTable inp N) (s s' : Sys)
+    (hr : PReach inp s) (c : Choice) (hs : pstep inp s c = some s') : MLtP inp N s' s :=
+  pstep_mltP hF hr hs
+
+/-- C09 (terminates), all three runners: every run of the model on a finite task table is finite — there is no
+    infinite sequence of enabled choices (the statement that was `def C09_terminates_full`, now a theorem; the
+    hypothesis `FiniteTable` is needed, see the section header) -/
+theorem C09_terminates (inp : RunInput) (N : Nat) (hF : FiniteTable inp N) :
+    ¬ ∃ (f : Nat → Sys) (c : Nat → Choice), f 0 = init inp ∧ ∀ i, stepOf inp (f i) (c i) = some (f (i + 1)) := by
+  by_cases h : inp.runner = .serial
+  · exact C09_terminates_serial inp h N hF
+  · exact C09_terminates_parallel inp h N hF
 
 /-! ### a cycle in the closure of the selection is diagnosed (FULL)
 
@@ -266,7 +284,7 @@ theorem C09_report_after_dependencies (inp : RunInput) (s : Sys) (hr : Reach inp
 
 /-- `halted` is final for the main thread of both systems (and a raised cyclic error reaches it in two steps,
     `C09_cyclic_ends_run_*`) -/
-theorem C09_terminates_partial (inp : RunInput) (s : Sys) (perm : List Name) (h : s.rpc = .halted) :
+theorem C09_halted_final (inp : RunInput) (s : Sys) (perm : List Name) (h : s.rpc = .halted) :
     serialStep inp s perm = none ∧ mainStep inp s perm = none := by
   simp [serialStep, mainStep, h]
 
